@@ -10,7 +10,7 @@ Ltac Zify.zify_post_hook ::= Z.div_mod_to_equations.
 (* ---------- no bare Read ---------- *)
 Lemma misfit_robust {A} id : robust (@misfit A id).
 Proof. unfold misfit. rb. Qed.
-Lemma dec_any_into_robust fuel old id : robust (dec_any_into fuel old id).
+Lemma dec_any_into_robust fuel dep old id : robust (dec_any_into fuel dep old id).
 Proof. unfold dec_any_into. destruct old; rb. Qed.
 Lemma st_loop_robust {M} (step : N -> list N -> M -> dec M) :
   (forall tt tn acc, robust (step tt tn acc)) -> forall fuel acc, robust (st_loop fuel step acc).
@@ -26,9 +26,9 @@ Proof.
 Qed.
 #[export] Hint Resolve misfit_robust dec_any_into_robust st_loop_robust arr_loop_robust : rb.
 
-Lemma dec_st_robust : forall fuel ty cur id, robust (dec_st fuel ty cur id).
+Lemma dst_robust : forall fuel dep ty cur id, robust (dst fuel dep ty cur id).
 Proof.
-  induction fuel as [|f IH]; intros ty cur id; cbn [dec_st]; [constructor|].
+  induction fuel as [|f IH]; intros dep ty cur id; cbn [dst]; [constructor|].
   destruct ty as [t| | | |t|t|n t|fs].
   - rb.
   - destruct cur as [| [old|] | | | | | |]; rb.
@@ -37,18 +37,21 @@ Proof.
   - rb.
   - destruct t; rb.
   - rb.
-  - destruct (id =? idCompound); [|rb]. apply robust_bind; [|intros; constructor].
+  - destruct (id =? idCompound); [|rb]. destruct (dep =? 0); [constructor|]. apply robust_bind; [|intros; constructor].
     apply st_loop_robust. intros tt tn acc. destruct (find_field fs tn) as [[i fty]|]; rb.
 Qed.
+#[export] Hint Resolve dst_robust : rb.
+Lemma dec_st_robust fuel ty cur id : robust (dec_st fuel ty cur id).
+Proof. apply dst_robust. Qed.
 #[export] Hint Resolve dec_st_robust : rb.
 
 (* ---------- totality with progress ---------- *)
 Lemma misfit_prog {A} id s : prog s (run_flat (@misfit A id) s).
 Proof. unfold misfit. pg. Qed.
 
-Lemma dec_any_into_prog fuel old id s : (length s + 1 < fuel)%nat -> prog s (run_flat (dec_any_into fuel old id) s).
+Lemma dec_any_into_prog fuel dep old id s : (length s + 1 < fuel)%nat -> prog s (run_flat (dec_any_into fuel dep old id) s).
 Proof.
-  intros H. unfold dec_any_into. destruct old; pg; apply dec_ty_prog; lia.
+  intros H. unfold dec_any_into. destruct old; pg; apply dty_prog; lia.
 Qed.
 
 Lemma st_loop_prog {M} (step : N -> list N -> M -> dec M) L :
@@ -93,16 +96,16 @@ Proof.
   intros [<-|H]; [lia|]. specialize (IH H). lia.
 Qed.
 
-Theorem dec_st_prog : forall fuel ty cur id s, (length s + 1 + sdepth ty < fuel)%nat -> prog s (run_flat (dec_st fuel ty cur id) s).
+Theorem dst_prog : forall fuel dep ty cur id s, (length s + 1 + sdepth ty < fuel)%nat -> prog s (run_flat (dst fuel dep ty cur id) s).
 Proof.
-  induction fuel as [|f IH]; intros ty cur id s Hs; [lia|]. cbn [dec_st].
+  induction fuel as [|f IH]; intros dep ty cur id s Hs; [lia|]. cbn [dst].
   destruct ty as [t| | | |t|t|n t|fs]; cbn [sdepth] in Hs.
-  - pg. apply dec_ty_prog; lia.
-  - destruct cur as [| [old|] | | | | | |]; pg; try (apply dec_any_prog; lia). apply dec_any_into_prog; lia.
-  - destruct (id =? idCompound); [|apply misfit_prog].
+  - pg. apply dty_prog; lia.
+  - destruct cur as [| [old|] | | | | | |]; pg; try (apply dany_prog; lia). apply dec_any_into_prog; lia.
+  - destruct (id =? idCompound); [|apply misfit_prog]. destruct (dep =? 0); [exact I|].
     apply prog_bind; [auto with rb| |intros; apply ret_prog0].
     apply comp_prog with (L := length s); [auto with rb|auto with rb|apply rd_tag_prog| |lia|lia].
-    intros id' s' Hs'. apply prog_prog0, dec_any_prog. lia.
+    intros id' s' Hs'. apply prog_prog0, dany_prog. lia.
   - apply prog_bind; [auto with rb| |intros; apply ret_prog0].
     unfold dec_raw. destruct (id =? idEnd); [exact I|].
     apply prog_bind; [auto with rb| |intros; apply ret_prog0].
@@ -110,24 +113,25 @@ Proof.
   - destruct (id =? idEnd); [exact I|].
     apply prog_bind; [auto with rb|apply IH; lia|intros; apply ret_prog0].
   - assert (forall t', sdepth t' = sdepth t -> prog s (run_flat
-        (if id =? idList then et <- rd_u8 ;; n <- rd_i32 ;;
+        (if id =? idList then if dep =? 0 then Fail eDepth else et <- rd_u8 ;; n <- rd_i32 ;;
            if (n <? 0)%Z then Fail eNeg
-           else l <- rep f (Z.to_N n) (dec_st f t' (zero t') et) [] ;; Ret (YList l)
+           else l <- rep f (Z.to_N n) (dst f (dep - 1) t' (zero t') et) [] ;; Ret (YList l)
          else misfit id) s)) as G.
     { intros t' Et. destruct (id =? idList); [|apply misfit_prog]. pg. apply IH. lia. }
-    destruct t; try (apply G; reflexivity). pg. apply dec_ty_prog; lia.
+    destruct t; try (apply G; reflexivity). pg. apply dty_prog; lia.
   - destruct (id =? idList).
-    + apply prog_bind; [auto with rb|apply rd_u8_prog|]. intros et r Hr.
+    + destruct (dep =? 0); [exact I|].
+      apply prog_bind; [auto with rb|apply rd_u8_prog|]. intros et r Hr.
       apply prog0_bind; [auto with rb|apply prog_prog0, rd_i32_prog|]. intros n0 r' Hr'.
       destruct (n0 <? 0)%Z eqn:En; [exact I|].
       match goal with |- prog0 _ (run_flat (if (Z.of_N (lenN ?c) <? n0)%Z then _ else _) _) => set (c0 := c) end.
       destruct (Z.ltb_spec (Z.of_N (lenN c0)) n0) as [Hlt|Hge]; [exact I|].
       apply prog0_bind; [auto with rb| |intros; apply ret_prog0].
       apply arr_loop_prog0 with (L := length r'); [auto with rb| |lia|lia|lia].
-      intros s' Hs'. apply dec_ty_prog. lia.
+      intros s' Hs'. apply dty_prog. lia.
     + destruct (id =? idByteArray); [pg|]. destruct (id =? idIntArray); [pg|].
       destruct (id =? idLongArray); [|apply misfit_prog]. pg.
-  - destruct (id =? idCompound); [|apply misfit_prog].
+  - destruct (id =? idCompound); [|apply misfit_prog]. destruct (dep =? 0); [exact I|].
     match goal with |- prog _ (run_flat (bind (st_loop _ ?st _) _) _) => set (step := st) end.
     assert (forall tt tn acc, robust (step tt tn acc)) as Rstep.
     { intros tt tn acc. unfold step. destruct (find_field fs tn) as [[i fty]|]; rb. }
@@ -136,8 +140,10 @@ Proof.
     intros tt tn acc s' Hs'. unfold step. destruct (find_field fs tn) as [[i fty]|] eqn:Ef.
     + pose proof (sdepth_field fs fty (find_field_In _ _ _ _ Ef)) as Hd. cbn [sdepth] in Hd.
       apply prog_prog0. apply prog_bind; [auto with rb|apply IH; lia|intros; apply ret_prog0].
-    + apply prog_prog0. apply prog_bind; [auto with rb|apply dec_skip_prog; lia|intros; apply ret_prog0].
+    + apply prog_prog0. apply prog_bind; [auto with rb|apply dskip_prog; lia|intros; apply ret_prog0].
 Qed.
+Theorem dec_st_prog : forall fuel ty cur id s, (length s + 1 + sdepth ty < fuel)%nat -> prog s (run_flat (dec_st fuel ty cur id) s).
+Proof. intros. now apply dst_prog. Qed.
 
 (* ---------- negative declared lengths and unknown ids, typed destinations ---------- *)
 Lemma notok_bind {A B} (d : dec A) (g : A -> dec B) s :
@@ -153,15 +159,15 @@ Proof. intros R H h rest Hh Hn. apply notok_bind; auto. Qed.
 Lemma negerr_fail {A} e : negerr (@Fail A e).
 Proof. intros h rest _ _. reflexivity. Qed.
 
-Lemma dec_any_negerr f id : array_id id -> negerr (dec_any (S f) id).
-Proof.
-  intros Hid h rest Hh Hn. destruct (negative_array_len id f h rest Hid Hh Hn) as (-> & _). reflexivity.
-Qed.
+Lemma dany_negerr f dep id : array_id id -> negerr (dany (S f) dep id).
+Proof. intros [->|[->| ->]]; rewrite ?any_bytearray, ?any_intarray, ?any_longarray; apply negerr_intro. Qed.
+Lemma dskip_negerr f dep id : array_id id -> negerr (dskip (S f) dep id).
+Proof. intros [->|[->| ->]]; rewrite ?skip_bytearray, ?skip_intarray, ?skip_longarray; apply negerr_intro. Qed.
 
-Lemma dec_ty_negerr f t id : array_id id -> negerr (dec_ty (S f) t id).
+Lemma dty_negerr f dep t id : array_id id -> negerr (dty (S f) dep t id).
 Proof.
   intros Hid. destruct t;
-    try (apply negerr_bind; [auto with rb|]; first [now apply dec_any_negerr | destruct Hid as [->|[->| ->]]; apply negerr_fail]);
+    try (apply negerr_bind; [auto with rb|]; first [now apply dany_negerr | destruct Hid as [->|[->| ->]]; apply negerr_fail]);
     destruct Hid as [->|[->| ->]]; apply negerr_intro.
 Qed.
 
@@ -177,27 +183,23 @@ Proof.
   intros R H. pose proof (tee_outcome d R s) as T.
   destruct (run_flat d s); cbn in H; try discriminate; now rewrite T.
 Qed.
-Lemma dec_skip_negerr f id : array_id id -> negerr (dec_skip (S f) id).
-Proof.
-  intros Hid h rest Hh Hn. destruct (negative_array_len id f h rest Hid Hh Hn) as (_ & -> & _). reflexivity.
-Qed.
 
-Lemma dec_st_negerr : forall fuel ty cur id, array_id id -> negerr (dec_st fuel ty cur id).
+Lemma dst_negerr : forall fuel dep ty cur id, array_id id -> negerr (dst fuel dep ty cur id).
 Proof.
-  induction fuel as [|f IH]; intros ty cur id Hid; [intros h rest _ _; reflexivity|].
-  destruct (array_id_facts id Hid) as (E0 & E10 & E9 & E5). cbn [dec_st].
+  induction fuel as [|f IH]; intros dep ty cur id Hid; [intros h rest _ _; reflexivity|].
+  destruct (array_id_facts id Hid) as (E0 & E10 & E9 & E5). cbn [dst].
   destruct ty as [t| | | |t|t|n t|fs].
-  - apply negerr_bind; [auto with rb|]. now apply dec_ty_negerr.
-  - destruct cur as [| [old|] | | | | | |]; apply negerr_bind; auto with rb; try now apply dec_any_negerr.
-    unfold dec_any_into. destruct old; try (apply negerr_bind; [auto with rb|]; now apply dec_ty_negerr).
-    rewrite E5. apply negerr_bind; [auto with rb|]. now apply dec_ty_negerr.
+  - apply negerr_bind; [auto with rb|]. now apply dty_negerr.
+  - destruct cur as [| [old|] | | | | | |]; apply negerr_bind; auto with rb; try now apply dany_negerr.
+    unfold dec_any_into. destruct old; try (apply negerr_bind; [auto with rb|]; now apply dty_negerr).
+    rewrite E5. apply negerr_bind; [auto with rb|]. now apply dty_negerr.
   - rewrite E10. now apply misfit_negerr.
   - apply negerr_bind; [auto with rb|]. unfold dec_raw. rewrite E0.
     apply negerr_bind; [auto with rb|]. intros h rest Hh Hn. apply tee_notok; [auto with rb|].
-    now apply dec_skip_negerr.
+    now apply dskip_negerr.
   - rewrite E0. apply negerr_bind; [auto with rb|]. now apply IH.
   - destruct t; rewrite ?E9; try now apply misfit_negerr.
-    apply negerr_bind; [auto with rb|]. now apply dec_ty_negerr.
+    apply negerr_bind; [auto with rb|]. now apply dty_negerr.
   - rewrite E9. destruct (id =? idByteArray); [apply negerr_intro|].
     destruct (id =? idIntArray); [apply negerr_intro|].
     destruct (id =? idLongArray); [apply negerr_intro|now apply misfit_negerr].
@@ -206,10 +208,10 @@ Qed.
 
 Lemma dec_ty_negative f h rest id ty : lenN h = 4 -> (sx32 (unbe h) < 0)%Z -> array_id id ->
   is_ok (run_flat (dec_ty (S f) ty id) (h ++ rest)) = false.
-Proof. intros Hh Hn Hid. now apply dec_ty_negerr. Qed.
+Proof. intros Hh Hn Hid. now apply dty_negerr. Qed.
 Lemma dec_st_negative f h rest id ty cur : lenN h = 4 -> (sx32 (unbe h) < 0)%Z -> array_id id ->
   is_ok (run_flat (dec_st (S f) ty cur id) (h ++ rest)) = false.
-Proof. intros Hh Hn Hid. now apply dec_st_negerr. Qed.
+Proof. intros Hh Hn Hid. now apply dst_negerr. Qed.
 
 (* unknown ids *)
 Definition unk {A} (d : dec A) : Prop := forall s, is_ok (run_flat d s) = false.
@@ -221,19 +223,30 @@ Ltac kill_ids E :=
     ?(E idByteArray), ?(E idString), ?(E idList), ?(E idCompound), ?(E idIntArray), ?(E idLongArray)
     by (vm_compute; discriminate); cbn [orb].
 
-Lemma dec_any_unk f id : 12 < id -> unk (dec_any (S f) id).
-Proof. intros H s. destruct (unknown_tag id f s H) as (-> & _). reflexivity. Qed.
-Lemma dec_skip_unk f id : 12 < id -> unk (dec_skip (S f) id).
-Proof. intros H s. destruct (unknown_tag id f s H) as (_ & -> & _). reflexivity. Qed.
-Lemma dec_text_unk f id : 12 < id -> unk (dec_text (S f) id).
-Proof. intros H s. destruct (unknown_tag id f s H) as (_ & _ & -> & _). reflexivity. Qed.
+Ltac unk_tac E := intros H; assert (forall k, k <= 12 -> (_ =? k) = false) as E by (intros; now apply eqb_gt12).
 
-Lemma dec_ty_unk f t id : 12 < id -> unk (dec_ty (S f) t id).
+Lemma dany_unk f dep id : 12 < id -> unk (dany (S f) dep id).
 Proof.
   intros H. assert (forall k, k <= 12 -> (id =? k) = false) as E by (intros; now apply eqb_gt12).
-  destruct t; try (cbn [dec_ty]; kill_ids E; intros s; reflexivity).
-  - cbn [dec_ty]. apply unk_bind; [auto with rb|]. now apply dec_any_unk.
-  - cbn [dec_ty]. apply unk_bind; [auto with rb|]. unfold dec_map. kill_ids E. intros s; reflexivity.
+  cbn [dany]. kill_ids E. intros s; reflexivity.
+Qed.
+Lemma dskip_unk f dep id : 12 < id -> unk (dskip (S f) dep id).
+Proof.
+  intros H. assert (forall k, k <= 12 -> (id =? k) = false) as E by (intros; now apply eqb_gt12).
+  cbn [dskip]. kill_ids E. intros s; reflexivity.
+Qed.
+Lemma dtext_unk f dep id : 12 < id -> unk (dtext (S f) dep id).
+Proof.
+  intros H. assert (forall k, k <= 12 -> (id =? k) = false) as E by (intros; now apply eqb_gt12).
+  cbn [dtext]. kill_ids E. intros s; reflexivity.
+Qed.
+
+Lemma dty_unk f dep t id : 12 < id -> unk (dty (S f) dep t id).
+Proof.
+  intros H. assert (forall k, k <= 12 -> (id =? k) = false) as E by (intros; now apply eqb_gt12).
+  destruct t; try (cbn [dty]; kill_ids E; intros s; reflexivity).
+  - cbn [dty]. apply unk_bind; [auto with rb|]. now apply dany_unk.
+  - cbn [dty]. apply unk_bind; [auto with rb|]. unfold dmap. kill_ids E. intros s; reflexivity.
 Qed.
 Lemma misfit_unk {A} id : 12 < id -> unk (@misfit A id).
 Proof.
@@ -244,40 +257,40 @@ Lemma dec_raw_unk f id : 12 < id -> unk (dec_raw (S f) id).
 Proof.
   intros H. assert (forall k, k <= 12 -> (id =? k) = false) as E by (intros; now apply eqb_gt12).
   unfold dec_raw. kill_ids E. apply unk_bind; [auto with rb|]. intros s. apply tee_notok; [auto with rb|].
-  now apply dec_skip_unk.
+  now apply dskip_unk.
 Qed.
 Lemma dec_raw_unknown f id s : 12 < id -> is_ok (run_flat (dec_raw (S f) id) s) = false.
 Proof. intros H. now apply dec_raw_unk. Qed.
 Lemma dec_snbt_unknown f id s : 12 < id -> is_ok (run_flat (dec_snbt (S f) id) s) = false.
 Proof.
   intros H. assert (forall k, k <= 12 -> (id =? k) = false) as E by (intros; now apply eqb_gt12).
-  unfold dec_snbt. kill_ids E. now apply dec_text_unk.
+  unfold dec_snbt. kill_ids E. now apply dtext_unk.
 Qed.
 Lemma dec_ty_unknown f id s ty : 12 < id -> is_ok (run_flat (dec_ty (S f) ty id) s) = false.
-Proof. intros H. now apply dec_ty_unk. Qed.
+Proof. intros H. now apply dty_unk. Qed.
 
-Lemma dec_st_unk : forall fuel ty cur id, 12 < id -> unk (dec_st fuel ty cur id).
+Lemma dst_unk : forall fuel dep ty cur id, 12 < id -> unk (dst fuel dep ty cur id).
 Proof.
-  induction fuel as [|f IH]; intros ty cur id H; [intros s; reflexivity|].
+  induction fuel as [|f IH]; intros dep ty cur id H; [intros s; reflexivity|].
   assert (forall k, k <= 12 -> (id =? k) = false) as E by (intros; now apply eqb_gt12).
-  cbn [dec_st]. destruct ty as [t| | | |t|t|n t|fs].
-  - apply unk_bind; [auto with rb|]. now apply dec_ty_unk.
-  - destruct cur as [| [old|] | | | | | |]; apply unk_bind; auto with rb; try now apply dec_any_unk.
-    unfold dec_any_into. destruct old; kill_ids E; apply unk_bind; auto with rb; now apply dec_ty_unk.
+  cbn [dst]. destruct ty as [t| | | |t|t|n t|fs].
+  - apply unk_bind; [auto with rb|]. now apply dty_unk.
+  - destruct cur as [| [old|] | | | | | |]; apply unk_bind; auto with rb; try now apply dany_unk.
+    unfold dec_any_into. destruct old; kill_ids E; apply unk_bind; auto with rb; now apply dty_unk.
   - kill_ids E. now apply misfit_unk.
   - apply unk_bind; [auto with rb|]. now apply dec_raw_unk.
   - kill_ids E. apply unk_bind; [auto with rb|]. now apply IH.
   - destruct t; kill_ids E; try now apply misfit_unk.
-    apply unk_bind; [auto with rb|]. now apply dec_ty_unk.
+    apply unk_bind; [auto with rb|]. now apply dty_unk.
   - kill_ids E. now apply misfit_unk.
   - kill_ids E. now apply misfit_unk.
 Qed.
 Lemma dec_st_unknown f id s ty cur : 12 < id -> is_ok (run_flat (dec_st (S f) ty cur id) s) = false.
-Proof. intros H. now apply dec_st_unk. Qed.
+Proof. intros H. now apply dst_unk. Qed.
 
 (* ---------- strict prefixes of well-formed documents, untyped targets (from C01's conformance theorems) ---------- *)
 Lemma prefix_untyped : forall f name t fuel k,
-  wf t -> name_ok name = true -> (length (payload t) < fuel)%nat -> (k < length (doc f name t))%nat ->
+  wf t -> nest_ok t -> name_ok name = true -> (length (payload t) < fuel)%nat -> (k < length (doc f name t))%nat ->
   let p := firstn k (doc f name t) in
   is_ok (run_flat (Decode f (dec_any fuel)) p) = false /\
   is_ok (run_flat (Decode f (dec_raw fuel)) p) = false /\
@@ -287,7 +300,7 @@ Lemma prefix_untyped : forall f name t fuel k,
      is_ok (run_flat (Decode f (dec_map fuel)) p) = false /\
      is_ok (run_flat (Decode f (dec_struct0 fuel)) p) = false).
 Proof.
-  intros f name t fuel k Hwf Hn Hf Hk p.
+  intros f name t fuel k Hwf Hnest Hn Hf Hk p.
   assert (forall A (body : N -> dec A) v, (forall id, robust (body id)) ->
             run_flat (Decode f body) (doc f name t ++ []) = FOk v [] ->
             is_ok (run_flat (Decode f body) p) = false) as G.
